@@ -215,10 +215,13 @@ fn finalize_synchronization(
     insertion_ctx: &InsertionContext,
     unassigned: HashSet<Job>,
 ) {
+    // NOTE: a job lives in one list only: conditional jobs (e.g. reload markers) which are ignored stay ignored
+    let ignored = new_insertion_ctx.solution.ignored.iter().cloned().collect::<HashSet<_>>();
     new_insertion_ctx.solution.unassigned.extend(
         unassigned
             .into_iter()
             .chain(insertion_ctx.solution.required.iter().cloned())
+            .filter(|job| !ignored.contains(job))
             .map(|job| (job, UnassignmentInfo::Unknown)),
     );
 
